@@ -23,7 +23,28 @@ fn usage() -> ! {
     std::process::exit(2)
 }
 
+/// A logger that accepts every record and formats it into nothing: with it installed, the arguments of
+/// the library's `log::debug!/warn!/error!` calls are evaluated (without a logger they are skipped).
+struct Sink;
+impl log::Log for Sink {
+    fn enabled(&self, _: &log::Metadata) -> bool {
+        true
+    }
+    fn log(&self, record: &log::Record) {
+        use std::fmt::Write;
+        let mut s = String::new();
+        let _ = write!(s, "{} {}", record.level(), record.args());
+        std::hint::black_box(&s);
+    }
+    fn flush(&self) {}
+}
+static SINK: Sink = Sink;
+
 fn main() {
+    if std::env::var_os("FPV_LOGGER").is_some() {
+        let _ = log::set_logger(&SINK);
+        log::set_max_level(log::LevelFilter::Trace);
+    }
     let args: Vec<String> = std::env::args().collect();
     if args.len() < 3 {
         usage();
